@@ -45,10 +45,13 @@ def run(ctx):
             kinds.append("startDocument")
         elif t == "%s.endDocument()" % handler:
             kinds.append("endDocument")
-        elif isinstance(s, ast.For) and norm(s.iter) == "prefix_mapping.items()":
+        elif isinstance(s, ast.For) and norm(s.iter) in ("prefix_mapping.items()", "prefix_mapping", "prefix_mapping.keys()"):
             calls = [norm(c.func) for c in ast.walk(s) if isinstance(c, ast.Call) and norm(c.func).startswith(handler + ".")]
             kinds.append("loop:" + ",".join(c.split(".", 1)[1] for c in calls))
-            tg = [e.id for e in s.target.elts] if isinstance(s.target, ast.Tuple) else []
+            if norm(s.iter) == "prefix_mapping.items()":
+                tg = [e.id for e in s.target.elts] if isinstance(s.target, ast.Tuple) else []
+            else:
+                tg = [s.target.id] if isinstance(s.target, ast.Name) else []
             for c in ast.walk(s):
                 if isinstance(c, ast.Call) and norm(c.func) == handler + ".startPrefixMapping":
                     r.check("R19.1", [norm(a) for a in c.args] == tg, "startPrefixMapping-args", "%s:%d" % (REL, c.lineno),
@@ -68,6 +71,18 @@ def run(ctx):
             detail={"order": kinds})
     if tok_loop is None:
         raise AnalysisError("to_sax: token loop not found")
+    # text that is buffered across tokens must be delivered when the stream ends
+    tokv = tok_loop.target.id if isinstance(tok_loop.target, ast.Name) else None
+    buffers = {norm(c.func.value) for c in ast.walk(tok_loop) if isinstance(c, ast.Call) and isinstance(c.func, ast.Attribute)
+               and c.func.attr in ("append", "extend") and isinstance(c.func.value, ast.Name) and c.args and tokv and
+               any(isinstance(x, ast.Name) and x.id == tokv for x in ast.walk(c.args[0]))}
+    after = top[top.index(tok_loop) + 1:]
+    for b in sorted(buffers):
+        flushed = any(isinstance(c, ast.Call) and norm(c.func) == handler + ".characters" and
+                      any(isinstance(x, ast.Name) and x.id == b for x in ast.walk(c)) for s_ in after for c in ast.walk(s_))
+        r.check("R19.2", flushed, "buffer-flushed::%s" % b, "%s:%d" % (REL, tok_loop.lineno),
+                "to_sax buffers token data in `%s` inside the token loop but does not deliver it after the loop: character data at "
+                "the end of the stream (a fragment ending in text) never reaches the handler" % b, detail={"buffer": b})
     inner = [norm(c.func) for c in ast.walk(tok_loop) if isinstance(c, ast.Call)]
     r.check("R19.1", not any(x.endswith(("Document", "PrefixMapping")) for x in inner), "brackets-outside-loop", f.where,
             "document / prefix events are emitted inside the token loop")
@@ -88,7 +103,7 @@ def run(ctx):
                 c = e.node.value
                 evs.append(norm(c.func).split(".", 1)[1])
                 if evs[-1] in ("startElementNS", "endElementNS"):
-                    names.add((norm(c.args[0]), norm(c.args[1])))
+                    names.add((_through_helper(f.module, c.args[0]), norm(c.args[1])))
                 if evs[-1] == "characters":
                     r.check("R19.2", norm(c.args[0]) == "%s['data']" % tok, "characters-arg", "%s:%d" % (REL, c.lineno),
                             "characters() is not given the token's data")
@@ -126,9 +141,46 @@ def thorough(ctx):
     selftest.run(ctx, sys.modules[__name__])
 
 
+def _through_helper(mod, expr):
+    """text of `expr`, with a call of a one-line module-level helper `def h(p): return E` replaced by E[p := argument]"""
+    if isinstance(expr, ast.Call) and isinstance(expr.func, ast.Name) and len(expr.args) == 1 and not expr.keywords:
+        h = mod.functions.get(expr.func.id)
+        if h is not None and len(h.params()) == 1:
+            body = [s for s in h.node.body if not (isinstance(s, ast.Expr) and isinstance(s.value, ast.Constant))]
+            if len(body) == 1 and isinstance(body[0], ast.Return) and body[0].value is not None:
+                import copy
+                p = h.params()[0]
+
+                class Sub(ast.NodeTransformer):
+                    def visit_Name(self, node):
+                        return copy.deepcopy(expr.args[0]) if node.id == p else node
+                return norm(Sub().visit(copy.deepcopy(body[0].value)))
+    return norm(expr)
+
+
+def _buffer_text(tree):
+    """characters are collected in a list and handed over only when the next tag arrives (never after the loop)"""
+    import ast as _a
+    for fn in tree.body:
+        if isinstance(fn, _a.FunctionDef) and fn.name == "to_sax":
+            for i, st in enumerate(fn.body):
+                if isinstance(st, _a.For) and isinstance(st.iter, _a.Name) and st.iter.id == "walker":
+                    chain = st.body[1]
+                    while isinstance(chain, _a.If):
+                        if "Characters" in _a.unparse(chain.test):
+                            chain.body = _a.parse("buf.append(token['data'])").body
+                            break
+                        chain = chain.orelse[0] if chain.orelse else None
+                    st.body.insert(1, _a.parse("if type in ('StartTag', 'EmptyTag', 'EndTag') and buf:\n    handler.characters(''.join(buf))\n    del buf[:]").body[0])
+                    fn.body.insert(i, _a.parse("buf = []").body[0])
+                    return True
+    return False
+
+
 def mutants():
-    from ..selftest import TextMutant as T
+    from ..selftest import TextMutant as T, AstMutant
     return [
+        AstMutant("text-buffered-never-flushed", REL, _buffer_text, "R19.2"),
         T("emptytag-no-end", REL, "            if type == \"EmptyTag\":\n                handler.endElementNS((token[\"namespace\"], token[\"name\"]),\n                                     token[\"name\"])\n", "", "R19.2"),
         T("end-wrong-ns", REL, "        elif type == \"EndTag\":\n            handler.endElementNS((token[\"namespace\"], token[\"name\"]),",
           "        elif type == \"EndTag\":\n            handler.endElementNS((None, token[\"name\"]),", "R19.2"),
